@@ -126,6 +126,18 @@ func runCheck(opt *checkOpts) int {
 				Attempts: []Attempt{{Solver: "govc", Verdict: "error", Out: "the function named by this contract no longer exists in the repository"}}})
 			continue
 		}
+		if fc.RangeSorted != "" {
+			name := k + "#syncmap_range_sorted[" + fc.RangeSorted + "]"
+			why := checkRangeSorted(repo.funcs[k], fc.RangeSorted)
+			r := Result{Obl: Obligation{Name: name, Clause: name, Func: k, Pos: fmt.Sprintf("%s:%d", fc.File, fc.Line)}, Verdict: "unsat", Solver: "structural"}
+			if why != "" {
+				r.Verdict = "error"
+				r.Attempts = []Attempt{{Solver: "govc", Verdict: "error", Out: "iteration order of the sync.Map can reach the answer: " + why}}
+			}
+			structural = append(structural, r)
+			forwards = append(forwards, k+" sorts "+fc.RangeSorted)
+			continue
+		}
 		if fc.Forward != "" {
 			name := k + "#forward[" + fc.Forward + "]"
 			why := checkForward(repo.funcs[k], fc.Forward)
